@@ -19,6 +19,8 @@ pub enum Lp {
     Total,
     /// outside the curve (below 0 / above L)
     Out(bool),
+    /// -0.0: numerically the start of the curve
+    NegZero,
 }
 
 /// second length of a pair: independent, or the first plus a multiple of the tolerance
@@ -52,6 +54,7 @@ fn lp() -> BoxedStrategy<Lp> {
         1 => Just(Lp::Zero),
         1 => Just(Lp::Total),
         1 => any::<bool>().prop_map(Lp::Out),
+        1 => Just(Lp::NegZero),
     ]
     .boxed()
 }
@@ -79,7 +82,7 @@ impl Property for C04 {
     type Case = Case;
     const ID: &'static str = "C04";
     fn rule() -> &'static str {
-        "a case is a history: a 2D curve (2-40 vertices, open/closed/force-closed, scale 1e-3..1e3, tol 1e-9..1e-4 of scale) and 1-5 operations (between_lengths, by_control, split_open, split_closed, trim_front/back, reversed) applied to the curve produced by the previous one; lengths are constructed from the current curve (exact vertex lengths, interior fractions, 0, L, outside, first + k*tol). Oracle: end points equal the source's points at the requested lengths, every vertex of a piece lies on the source in increasing (seam-unwrapped) order, interior source vertices are all present, length = arc-length difference within 4 tol, ill-posed requests yield nothing. Non-trivial: closed curve with a seam-wrapping request, or an end point exactly on a vertex, or both ends on one edge. Distinct = distinct canonical JSON."
+        "a case is a history: a 2D curve (2-40 vertices, open/closed/force-closed, scale 1e-3..1e3, tol 1e-9..1e-4 of scale) and 1-5 operations (between_lengths, by_control, split_open, split_closed, trim_front/back, reversed) applied to the curve produced by the previous one; lengths are constructed from the current curve (exact vertex lengths, interior fractions, 0, -0.0, L, outside, first + k*tol). Oracle: end points equal the source's points at the requested lengths, every vertex of a piece lies on the source in increasing (seam-unwrapped) order, interior source vertices are all present, length = arc-length difference within 4 tol, ill-posed requests yield nothing. Non-trivial: closed curve with a seam-wrapping request, or an end point exactly on a vertex, or both ends on one edge. Distinct = distinct canonical JSON."
     }
     fn cases(t: Tier) -> u32 {
         t.pick(1_200_000, 10_000_000)
@@ -122,6 +125,7 @@ impl Cur {
                 (l, lens.contains(&l))
             }
             Lp::Zero => (0.0, true),
+            Lp::NegZero => (-0.0, true),
             Lp::Total => (lens[n - 1], true),
             Lp::Out(neg) => (if *neg { -0.25 * lens[n - 1] - 1e-3 } else { lens[n - 1] * 1.25 + 1e-3 }, false),
         }
